@@ -24,6 +24,18 @@ CHECKS = {
    technique="explicit-state model checking (stateright): exhaustive bounded enumeration of texts x definition-flag worlds on the real lattice builder, reference = textbook MeCab candidate model with greedy left-to-right class runs",
    text="For every string up to the bound over an alphabet with multi-class characters, combining marks (ALL NOOOVBOW), ZWJ (NOOOVBOW2), emoji modifiers and small kana, in worlds varying invoke/group/length of one class at a time and in six provider orders (MeCab, simple, regex strict/relaxed), the set of OOV nodes at every reachable lattice position, the class runs, the word-start flags and the fields of OOV morphemes are compared with the reference; runs of 62..130 characters cover the created-words bitset.",
    ref="DESIGN.md §3 C13"),
+ "C04": dict(
+   technique="explicit-state model checking (stateright) over lexicons under construction: every entry sequence up to the bound is compiled by the real builder and every byte offset of every probe text is looked up, reference = naive scan of the rows",
+   text="Every sequence of up to max_entries lexicon entries (keys over 1/3/4-byte characters that are prefixes of each other, indexed or not, spread over a system and two user dictionaries) is compiled and loaded with the real code; LexiconSet::lookup at every byte offset (also inside characters) of every text up to length 3 and exact-surface lookup are compared as multisets with a naive scan; structured lexicons cover 127/128 homographs, 14k+ keys (word-id table offsets beyond 255 and 65535), 15/16 layers and keys up to 255 characters.",
+   ref="DESIGN.md §3 C04"),
+ "C05": dict(
+   technique="explicit-state model checking (stateright) over sets of field deviations of a baseline lexicon/matrix: each accepted input is compiled twice, loaded at two alignments and read back field by field against the declaration",
+   text="Baseline, every single deviation and every pair of deviations on different fields (string lengths around 127/128 UTF-16 units with BMP and astral characters, escapes, forms equal/different, dictionary-form and split references numeric / inline / U-prefixed, 127-item arrays, id and cost limits, matrices 1x1, 2x3, 3x2, 10x10) for system and user dictionaries: compiled on two threads with the same timestamp (byte-identical), loaded at buffer alignment offsets 0 and 1, every field of every entry and every matrix cell read back through the public readers.",
+   ref="DESIGN.md §3 C05"),
+ "C17": dict(
+   technique="explicit-state model checking (stateright) over definition files built line by line: every file up to the bound is loaded by the real parser and queried on every probe code point, reference = naive union of covering lines; plus all scalars on the shipped files",
+   text="Every sequence (all orders, duplicates) of up to 3-4 range lines from a menu of ranges x class sets over a small domain touching 0, and around the surrogate gap and the top of the code space, is loaded with the real CharacterCategory reader; every probe code point (all range ends and neighbours) must report exactly the union of the covering lines or DEFAULT; the three char.def files shipped in the repository are checked on all 1,112,064 scalar values.",
+   ref="DESIGN.md §3 C17"),
  "C07": dict(
    technique="explicit-state model checking (stateright): all 1,112,064 scalars in context and all bounded strings through the real input-text plugins, compared state by state with a reference normaliser",
    text="The real DefaultInputText / ProlongedSoundMark / IgnoreYomigana plugins are run on every scalar value in several contexts (forcing both code paths) and on every string up to the bound over a trigger alphabet under four rewrite tables (prefix keys, multi-character keys and values, exempt characters), each table loaded twice; every result must equal the reference function written from the statement.",
